@@ -15,7 +15,7 @@
      solve_targets                                            the positions solve() will visit ([] when it rejects its arguments) *)
 From Coq Require Import ZArith List Bool PrimFloat.
 Import ListNotations.
-Require Import PyBase Solver SolverFacts SolverF SolveAll Tracer TracerSolve TracerNames TracerLinked TracerFacts TracerFacts2 TracerFacts3 TracerF TracerExamples.
+Require Import PyBase Solver SolverFacts SolverF SolveAll Tracer TracerSolve TracerNames TracerLinked TracerReindex TracerFacts TracerFacts2 TracerFacts3 TracerFacts4 TracerF TracerExamples.
 Open Scope Z_scope.
 
 Section C17.
@@ -447,6 +447,49 @@ Theorem C17_trace_stale_names_refuted :
     = snap float fzero (vals_of (fst (fst R))) t (names_of cfg (length (vals_of s)) a).
 Proof. exact trace_stale_names_refuted. Qed.
 
+(* reindex() AND copy() OF A TRACED INSTANCE (TracerReindex.v: the cells of the object array `_trace` hold references).
+   NEW FINDING 1: a period that is new after reindex holds None, so EVERY trace_t on it — hence every traced solve of it —
+   raises AttributeError and changes nothing, whatever names / label / values / reset (the untraced solve is unaffected). *)
+Theorem C17_reindex_new_period_raises (num : Type) positions cells i names reset lab res (h : theap num) :
+  nth i positions None = None ->
+  trace_t_cells num names reset i lab res (reindex_cells positions cells) h
+  = ((reindex_cells positions cells, h), Some AttributeError).
+Proof. exact (reindex_new_period_raises num positions cells i names reset lab res h). Qed.
+
+(* NEW FINDING 2 (DESIGN.md #21 seen from the tracer): a period both spans have refers to the SAME Trace object in the
+   original and in the reindexed instance; traced again through the reindexed instance (non-empty Trace, same width,
+   reset=False) the snapshot is appended in place — the ORIGINAL instance's Trace of that period changes. *)
+Theorem C17_reindex_shares_trace_objects (num : Type) positions cells i q r names lab res (h : theap num) c cs :
+  nth i positions None = Some q -> nth q cells None = Some r -> (r < length h)%nat ->
+  tr_values (tderef num h r) = c :: cs -> length c = length res ->
+  let old := tderef num h r in
+  let '((cells', h'), e) := trace_t_cells num names false i lab res (reindex_cells positions cells) h in
+  e = None /\ cells' = reindex_cells positions cells /\
+  tderef num h' r = mkTrace (tr_names old) (tr_index old ++ [lab]) (tr_values old ++ [res]) /\
+  tderef num h' r <> old.
+Proof. exact (reindex_shares_trace_objects num positions cells i q r names lab res h c cs). Qed.
+
+(* ... the guard: through a cell whose Trace is still empty, or with reset=True, trace_t puts a NEW Trace into the cell and
+   writes into no existing object — untraced periods of the original are never disturbed *)
+Theorem C17_trace_t_makes_a_fresh_object_when_empty_or_reset (num : Type) names reset p lab res cells (h : theap num) r :
+  nth p cells None = Some r -> is_empty num (tderef num h r) || reset = true ->
+  let '((cells', h'), e) := trace_t_cells num names reset p lab res cells h in
+  cells' = upd p (Some (length h)) cells /\ (forall a, (a < length h)%nat -> tderef num h' a = tderef num h a).
+Proof. exact (trace_t_cells_fresh_object num names reset p lab res cells h r). Qed.
+
+(* copy() is sound: every period of the copy gets its OWN Trace object with the contents of the original's; no existing
+   object is touched — nothing done to the copy's Traces can reach the original's *)
+Theorem C17_copy_gives_every_period_its_own_trace (num : Type) cells (h : theap num) :
+  let '(cs, h') := copy_cells num cells h in
+  length cs = length cells /\ (length h <= length h')%nat /\
+  (forall a, (a < length h)%nat -> tderef num h' a = tderef num h a) /\
+  (forall i, match nth i cells None with
+             | None => nth i cs None = None
+             | Some a => (a < length h)%nat ->
+                         exists b, nth i cs None = Some b /\ (length h <= b < length h')%nat /\ tderef num h' b = tderef num h a
+             end).
+Proof. exact (copy_cells_fresh num cells h). Qed.
+
 (* TracerMixin.__init__: DuplicateNameError iff TRACE_NAME is already in the container's index (a variable, 'status',
    'iterations'); otherwise the name is appended to the index and every period gets an empty, well-formed Trace to which
    any first snapshot can be appended. *)
@@ -546,6 +589,10 @@ Print Assumptions C17_trace_reset_keeps_last_only.
 Print Assumptions C17_trace_width_mismatch_refuted.
 Print Assumptions C17_linked_submodel_passes.
 Print Assumptions C17_linked_submodel_labels.
+Print Assumptions C17_reindex_new_period_raises.
+Print Assumptions C17_reindex_shares_trace_objects.
+Print Assumptions C17_trace_t_makes_a_fresh_object_when_empty_or_reset.
+Print Assumptions C17_copy_gives_every_period_its_own_trace.
 Print Assumptions C17_tracer_init.
 Print Assumptions C17_trace_names_fresh_copy.
 Print Assumptions C17_trace_names_is_the_value_traced.
